@@ -346,6 +346,32 @@ def oracle_hint(ctx, impl, s, hs):
                      replay=dict(hint=s, handler=kind, exception=d[1]))
 
 
+def oracle_history(ctx, impl, furls):
+    """parsing is a function of the string: what an earlier caller did to ITS result (hint list of
+    decode_furl, SturdyRef.locationHints, TubRef.getLocations()) must not show in a later parse.
+    Each case uses a FURL of its own (a unique name suffix), so cases cannot disturb each other."""
+    n = 0
+    for i, s in enumerate(furls):
+        mutation = impl.MUTATIONS[i % len(impl.MUTATIONS)]
+        as_bytes = (i % 4 == 3)
+        subject = s + "~h%d" % i                   # still a FURL if s was one; unique per case
+        try:
+            subject.encode("utf-8")
+        except UnicodeEncodeError:
+            continue
+        probs = impl.history_probe(subject, mutation, as_bytes)
+        n += 1
+        ctx.case(["history", subject, mutation, as_bytes], nontrivial=True)
+        ctx.hist("history", mutation + ("/bytes" if as_bytes else "/str"))
+        if probs:
+            ctx.fail("oracle/decode-depends-on-history",
+                     "decode_furl is not a function of the string: f = %r (%s); decode f, %s on the result's hint list, decode f "
+                     "again: %s" % (subject, "bytes" if as_bytes else "str", mutation, "; ".join(probs[:3])),
+                     replay=dict(furl=subject, as_bytes=as_bytes, mutation=mutation, problems=probs,
+                                 python="harness.c20_impl.history_probe(%r, %r, %r)" % (subject, mutation, as_bytes)))
+    ctx.extra["history_cases"] = n
+
+
 # ------------------------------------------------------------------------------ CPU time
 
 def run_probe(payload, limit):
@@ -561,6 +587,13 @@ def run(ctx):
         correspond_functions(ctx, impl, furls, hint_cases)
         if ok:
             model_steps(ctx, impl)
+
+    # 3b. history independence (last of the in-process checks: on a defective tree it leaves altered results behind)
+    hist_pool = [s for s, d in zip(furls, decoded) if d is not None and len(d[1]) >= 1][:ctx.n(120, 2000)]
+    hist_pool += [s for s, d in zip(furls, decoded) if d is not None and len(d[1]) == 0][:ctx.n(12, 100)]
+    hist_pool += [s for s, d in zip(furls, decoded) if d is None][:ctx.n(12, 100)]
+    hist_pool += ["pb://q5l37rle6pojjnllrwjyryulavpqdlq5@tcp:one.example.com:9900,tor:abcdefghij234567.onion:80,10.0.0.7:9901/swissnumber/with/slashes"]
+    oracle_history(ctx, impl, hist_pool)
 
     # 4. CPU time growth (child processes)
     timing(ctx, impl)
